@@ -327,19 +327,21 @@ func (g *Gen) callWrites(li *loopInfo, ct *Contract, cc *ssa.CallCommon, addTarg
 	}
 }
 
-func (g *Gen) loopEntry(li *loopInfo, preds []*ssa.BasicBlock, conds []string) {
+func (g *Gen) loopEntryEdges(li *loopInfo, edges []inEdge) {
 	b := li.header
 	li.preNext = g.nextobj
 	// 1. invariants hold on entry
 	phiEntry := map[string]*Val{}
+	phiEntryVals := map[*ssa.Phi]*Val{}
 	var phis []*ssa.Phi
-	for _, ins := range b.Instrs {
-		phi, ok := ins.(*ssa.Phi)
+	for _, hi := range b.Instrs {
+		phi, ok := hi.(*ssa.Phi)
 		if !ok {
 			break
 		}
 		phis = append(phis, phi)
-		v := g.joinPhi(phi, preds, conds)
+		v := g.joinPhiEdges(phi, edges)
+		phiEntryVals[phi] = v
 		if phi.Comment != "" {
 			phiEntry[phi.Comment] = v
 		}
@@ -403,6 +405,10 @@ func (g *Gen) loopEntry(li *loopInfo, preds []*ssa.BasicBlock, conds []string) {
 	phiHead := map[string]*Val{}
 	for _, phi := range phis {
 		v := g.havocVal(phi.Type(), "loop_"+phi.Name()+"_"+phi.Comment)
+		if g.keepPhi != nil && g.keepPhi[phi] {
+			// unrolled loop with cut points: counters with constant increments keep their exact value
+			v = phiEntryVals[phi]
+		}
 		// keep closure identity etc.
 		g.vals[phi] = v
 		if phi.Comment != "" {
@@ -640,7 +646,7 @@ func (g *Gen) terminator(conds []string, pos token.Pos) {
 	for i, s := range b.Succs {
 		if g.isBackEdge(b, s) {
 			li := g.loops[s]
-			if li != nil {
+			if li != nil && li.spec.UnrollN == 0 {
 				g.backEdge(li, conds[i], pos)
 			}
 		}
@@ -1334,6 +1340,8 @@ func (g *Gen) atPoint(kind, callee string, ins ssa.Instruction, pos token.Pos) {
 			if as.C.Label != "" {
 				g.facts[as.C.Label] = fmt.Sprintf("(=> %s %s)", g.reach, t)
 			}
+		case "inst":
+			g.instFact(env, as)
 		case "mark":
 			g.marks[as.Name] = len(g.lines)
 		case "set":
@@ -1527,6 +1535,8 @@ func (g *Gen) atLoopBody(li *loopInfo, at ssa.Instruction) {
 			if as.C.Label != "" {
 				g.facts[as.C.Label] = fmt.Sprintf("(=> %s %s)", g.reach, t)
 			}
+		case "inst":
+			g.instFact(env, as)
 		case "ghost":
 			v := g.specVal(env, as.C.E)
 			if v != nil {
@@ -1545,4 +1555,34 @@ func (g *Gen) atLoopBody(li *loopInfo, at ssa.Instruction) {
 			}
 		}
 	}
+}
+
+// instFact adds the instance of a precondition schema: arguments are evaluated at the current point, the body in
+// the entry state (where the schema holds for all parameter values).
+func (g *Gen) instFact(env *Env, as *AtStmt) {
+	var fd *FactDef
+	for _, f := range g.ct.Facts {
+		if f.Name == as.Name {
+			fd = f
+		}
+	}
+	if fd == nil {
+		g.bindFail("inst of unknown fact " + as.Name)
+		return
+	}
+	args := as.C.E.Args[1:]
+	if len(args) != len(fd.Vars) {
+		g.bindFail("inst " + as.Name + ": wrong number of arguments")
+		return
+	}
+	entry := g.entryEnv()
+	for i, bv := range fd.Vars {
+		v := g.specVal(env, args[i])
+		if v == nil {
+			return
+		}
+		// name the argument so the instance is small
+		entry.vars[bv.Name] = scalar(sortOfSpecName(bv.Sort), g.def("inst_"+bv.Name, sortOfSpecName(bv.Sort), v.S[0]), nil)
+	}
+	g.assume(g.specBool(entry, fd.C.E))
 }
